@@ -786,6 +786,9 @@ fn heap_script(pattern: u8, n: usize, out: &mut StepOut) {
     let mut heap: PairingHeap<u32> = PairingHeap::new();
     let mut member = vec![false; n];
     for i in 0..n {
+        if i % 512 == 0 {
+            crate::core::heartbeat();
+        }
         let p: *mut HeapNode<u32> = &mut *nodes[i];
         if let Err(e) = lib(|| unsafe { heap.insert(&mut *p) }) {
             out.v("C20", "panic", format!("insert number {} of {} panicked: {}", i + 1, n, e));
@@ -810,6 +813,9 @@ fn heap_script(pattern: u8, n: usize, out: &mut StepOut) {
     }
     let mut last = 0u32;
     while left > 0 {
+        if left % 512 == 0 {
+            crate::core::heartbeat();
+        }
         let m = match heap.peek_min() {
             Some(m) => m.as_ptr(),
             None => {
